@@ -871,7 +871,8 @@ def _selection_sets(f):
           "the body handles, every dispatch block covers them, and every branch set that contains INSIDE or OUTSIDE also contains ALL; H9 the "
           "closure's exclusion filters compare whole references, never bare items (items are shared between occurrences); a reference built "
           "around a parent link that can be None (element removed from its parent) is never yielded without a test in between; H11' yields of the "
-          "raw generators and of the work-list closures are de-duplicated on the value yielded. Decides "
+          "raw generators and of the work-list closures are de-duplicated on the value yielded; H7b' / H13' the occurrence enumeration the traces "
+          "start from is closed under discovery and no step is pruned on the absence of child instances (a cell may consist of wires only). Decides "
           "well-formedness of what the closure builds; that the closure equals the electrical net for every start point is not decided.")
 def check_c12(ctx, R):
     P = ctx.P
